@@ -93,6 +93,20 @@ def check_pair(mod, label, tabs, N, rng):
                 bad.append(("%s.ft2:parseval" % label, dict(N=N, delta=delta)))
         if bad:
             break
+    # real, integer and single-precision inputs: the transform of the same numbers
+    if N >= 2:
+        xr = rng.integers(-4, 5, size=(2, N, N))
+        ref = np.asarray(mod.ft2(xr.astype(complex), 0.5))
+        for nm, arr, tol_ in (("int64", xr.astype(np.int64), 1e-11), ("float64", xr.astype(float), 1e-11), ("complex64", xr.astype(np.complex64), 2e-5)):
+            g2 = np.asarray(mod.ft2(arr.copy(), 0.5))
+            g1 = np.asarray(mod.ift2(np.asarray(mod.ft2(arr.copy(), 0.5)), 1.0 / (N * 0.5)))
+            if g2.shape != ref.shape or not np.allclose(g2, ref, rtol=0, atol=tol_ * N * max(1.0, np.abs(ref).max())) \
+                    or not np.allclose(g1, xr, rtol=0, atol=tol_ * N * 10):
+                bad.append(("%s.ft2:input-dtype-%s" % (label, nm), dict(N=N)))
+                break
+        x1 = xr[0, 0]
+        if not np.allclose(np.asarray(mod.ft(x1.astype(np.int64), 0.5)), np.asarray(mod.ft(x1.astype(complex), 0.5)), rtol=0, atol=1e-11 * N):
+            bad.append(("%s.ft:input-dtype-int64" % label, dict(N=N)))
     # the spacing may be handed over as a numpy scalar / 0-d / 1-element array: same numbers, argument untouched, no drift
     if N >= 2:
         for mk in (np.float64, np.array, lambda v: np.array([v])):
